@@ -138,7 +138,8 @@ func symFileInfo(path string, i int, dir bool) FileInfo {
 		fi.ETag = vrt.Text(tag + "-etag")
 	}
 	if vrt.Choose(tag+"-hasmodtime", 2) == 1 {
-		fi.ModTime = vrt.Time(tag + "-modtime")
+		// the backend may hold its times in any zone
+		fi.ModTime = vrt.TimeIn(tag+"-modtime", vrt.Choose(tag+"-zone", 3))
 	}
 	return fi
 }
